@@ -297,6 +297,8 @@ class _Stores:
     def __init__(self):
         self.w = {"glob": set(), "in": set(), "out": set()}
         self.done = set()
+        self.depth = 0
+        self.valenv = {}
         e = MI.PsbtIn(check_validity=False)
         o = MO.PsbtOut(check_validity=False)
         g = M.Psbt(2, [], [], 2, {}, check_validity=False)
@@ -337,6 +339,7 @@ class _Stores:
                 env.pop(target.id, None)
 
     def store_target(self, t, env, where):
+        stripped = isinstance(t, ast.Subscript)
         while isinstance(t, ast.Subscript):
             t = t.value
         if isinstance(t, (ast.Tuple, ast.List)):
@@ -346,8 +349,15 @@ class _Stores:
         if isinstance(t, ast.Starred):
             return self.store_target(t.value, env, where)
         if isinstance(t, ast.Name):
+            if stripped and t.id in self.valenv:          # d[k] = v  /  del d[k]   with d = psbt_in.unknown
+                for sec, attr in self.valenv[t.id]:
+                    self.w[sec].add(attr)
             return
         if isinstance(t, ast.Attribute):
+            if isinstance(t.value, ast.Name) and t.value.id in self.valenv:     # utxo.lock_time = …
+                for sec, attr in self.valenv[t.value.id]:
+                    self.w[sec].add(attr)
+                return
             sec = self.classify(t.value, env)
             if sec:
                 self.w[sec].add(t.attr)
@@ -359,6 +369,10 @@ class _Stores:
                     self.w[self.classify(b.value, env)].add(b.attr)
                     return
                 b = b.value
+            if isinstance(b, ast.Name) and b.id in self.valenv:
+                for sec, attr in self.valenv[b.id]:
+                    self.w[sec].add(attr)
+                return
             if isinstance(b, ast.Name) and b.id in self.untracked_ok:
                 return
             raise ValueError(f"{where}: store to `{ast.unparse(t)}` on an object the walker does not track")
@@ -369,12 +383,69 @@ class _Stores:
         sec = self.classify(a, env)
         if sec:
             return sec, None
+        if isinstance(a, ast.Name) and a.id in getattr(self, "valenv", {}):
+            sec, attr = sorted(self.valenv[a.id])[0]
+            return sec, attr
         if isinstance(a, ast.Attribute) and self.classify(a.value, env):
             s2 = self.classify(a.value, env)
             if a.attr in self.immutable[s2] or a.attr in READ_MEMBERS:
                 return None
             return s2, a.attr
         return None
+
+    # ---- aliases of mutable field VALUES:  d = psbt_in.unknown;  for d in (x.a, x.b);  d = x.a or x.b
+    def value_of(self, e, env):
+        """set of (section, attr) when the expression IS (one of) the mutable value(s) of tracked fields, else None"""
+        if isinstance(e, ast.Name) and e.id in self.valenv:
+            return set(self.valenv[e.id])
+        if isinstance(e, ast.Attribute) and self.classify(e.value, env):
+            sec = self.classify(e.value, env)
+            if e.attr in self.immutable[sec] or e.attr in READ_MEMBERS:
+                return None
+            return {(sec, e.attr)}
+        if isinstance(e, ast.Call) and getattr(e.func, "id", "") == "cast" and len(e.args) == 2:
+            return self.value_of(e.args[1], env)
+        if isinstance(e, ast.Call) and getattr(e.func, "id", "") == "getattr" and e.args \
+                and self.classify(e.args[0], env):
+            sec = self.classify(e.args[0], env)
+            if len(e.args) >= 2 and isinstance(e.args[1], ast.Constant):
+                return None if e.args[1].value in self.immutable[sec] else {(sec, e.args[1].value)}
+            return {(sec, "*")}
+        if isinstance(e, (ast.BoolOp, ast.IfExp)):
+            parts = e.values if isinstance(e, ast.BoolOp) else [e.body, e.orelse]
+            vs = [self.value_of(x, env) for x in parts]
+            vs = [v for v in vs if v]
+            return set().union(*vs) if vs else None
+        if isinstance(e, ast.NamedExpr):
+            return self.value_of(e.value, env)
+        return None
+
+    def bind_value(self, target, value, env, where, elementwise=False):
+        """record `target` as an alias when `value` is (or iterates over) mutable values of tracked fields"""
+        if elementwise and isinstance(value, (ast.Tuple, ast.List)):
+            vs = [self.value_of(x, env) for x in value.elts]
+            vs = [v for v in vs if v]
+            got = set().union(*vs) if vs else None
+        elif elementwise:
+            got = None
+            v = self.value_of(value, env)
+            if v:   # iterating over a mutable field: the elements (lists in a dict's values …) may be mutable parts
+                got = v
+            elif isinstance(value, ast.Call) and isinstance(value.func, ast.Attribute) \
+                    and value.func.attr in ("values", "items") and self.value_of(value.func.value, env):
+                got = self.value_of(value.func.value, env)
+        else:
+            got = self.value_of(value, env)
+        if not got:
+            return
+        if any(a == "*" for _, a in got):
+            raise ValueError(f"{where}: `{ast.unparse(value)}` binds a field chosen at run time to a name")
+        names = [target] if isinstance(target, ast.Name) else \
+            [x for x in ast.walk(target) if isinstance(x, ast.Name)] if isinstance(target, (ast.Tuple, ast.List)) else None
+        if names is None:
+            return                      # a store into a subscript/attribute: handled by store_target
+        for n in names:
+            self.valenv.setdefault(n.id, set()).update(got)
 
     def run(self, fn, param_secs, untracked_ok=()):
         key = (fn.__qualname__, tuple(sorted(param_secs.items())))
@@ -385,13 +456,31 @@ class _Stores:
         where = fn.__qualname__
         self.untracked_ok = set(untracked_ok) | getattr(self, "untracked_ok", set())
         env = {a.arg: param_secs[a.arg] for a in f.args.args + f.args.kwonlyargs if a.arg in param_secs}
-        for st in ast.walk(f):
-            if isinstance(st, ast.Assign) and len(st.targets) == 1 and isinstance(st.targets[0], ast.Name):
-                sec = self.classify(st.value, env)
-                if sec:
-                    env[st.targets[0].id] = sec
-            if isinstance(st, (ast.For, ast.comprehension)):
-                self.bind_loop(st.target, st.iter, env)
+        saved_valenv = getattr(self, "valenv", {})
+        self.valenv = {}
+        for _ in range(2):              # twice: an alias of an alias, whatever the order ast.walk meets them in
+            for st in ast.walk(f):
+                if isinstance(st, ast.Assign):
+                    if len(st.targets) == 1 and isinstance(st.targets[0], ast.Name):
+                        sec = self.classify(st.value, env)
+                        if sec:
+                            env[st.targets[0].id] = sec
+                    for t in st.targets:
+                        if isinstance(t, (ast.Tuple, ast.List)) and isinstance(st.value, (ast.Tuple, ast.List)) \
+                                and len(t.elts) == len(st.value.elts):
+                            for a, b in zip(t.elts, st.value.elts):
+                                self.bind_value(a, b, env, where)
+                        else:
+                            self.bind_value(t, st.value, env, where)
+                elif isinstance(st, ast.AnnAssign) and st.value is not None:
+                    self.bind_value(st.target, st.value, env, where)
+                elif isinstance(st, ast.NamedExpr):
+                    self.bind_value(st.target, st.value, env, where)
+                elif isinstance(st, (ast.For, ast.comprehension)):
+                    self.bind_loop(st.target, st.iter, env)
+                    self.bind_value(st.target, st.iter, env, where, elementwise=True)
+                elif isinstance(st, ast.withitem) and st.optional_vars is not None:
+                    self.bind_value(st.optional_vars, st.context_expr, env, where)
         for n in ast.walk(f):
             if isinstance(n, ast.Assign):
                 for t in n.targets:
@@ -403,6 +492,10 @@ class _Stores:
                     self.store_target(t, env, where)
             elif isinstance(n, ast.Call):
                 self.call(n, env, where)
+            elif isinstance(n, (ast.Return, ast.Yield)) and n.value is not None and self.value_of(n.value, env) \
+                    and self.depth > 0:
+                raise ValueError(f"{where}: returns the mutable value `{ast.unparse(n.value)}` to its caller")
+        self.valenv = saved_valenv
 
     def call(self, c, env, where):
         fname = c.func.id if isinstance(c.func, ast.Name) else c.func.attr if isinstance(c.func, ast.Attribute) else None
@@ -412,6 +505,12 @@ class _Stores:
                 self.w[self.classify(c.args[0], env)].add(c.args[1].value)
                 return
             raise ValueError(f"{where}: setattr on a computed name")
+        if isinstance(c.func, ast.Attribute) and isinstance(c.func.value, ast.Name) and c.func.value.id in self.valenv:
+            if c.func.attr in MUTATORS:               # d.update(...) with d = psbt_in.unknown
+                for sec, attr in self.valenv[c.func.value.id]:
+                    self.w[sec].add(attr)
+            elif c.func.attr not in READ_VALUE_METHODS:
+                raise ValueError(f"{where}: `{ast.unparse(c.func)}` may write through the alias `{c.func.value.id}`")
         if isinstance(c.func, ast.Attribute):
             recv = c.func.value
             sec = self.classify(recv, env)
@@ -447,7 +546,11 @@ class _Stores:
                     if t[1] is not None:
                         raise ValueError(f"{where}: hands `{ast.unparse(k.value)}` (mutable) to {fname}")
                     secs[k.arg] = t[0]
-            self.run(target, secs)
+            self.depth += 1
+            try:
+                self.run(target, secs)
+            finally:
+                self.depth -= 1
             return
         if fname in PURE:
             return
@@ -461,7 +564,109 @@ def stores(fns, roots, untracked_ok=()):
     return s.w
 
 
+
+_SELFTEST_SRC = """
+from copy import deepcopy
+from typing import cast
+def a1(psbt_in):
+    d = psbt_in.unknown
+    d[b"k"] = b"v"
+def a2(psbt_in):
+    d = psbt_in.unknown
+    d.update({})
+def a3(psbt_in):
+    for d in (psbt_in.partial_sigs, psbt_in.hd_key_paths):
+        d.clear()
+def a4(psbt_in):
+    d = psbt_in.unknown
+    e = d
+    del e[b"k"]
+def a5(psbt_in):
+    d = cast(dict, psbt_in.unknown)
+    d.pop(b"k")
+def a6(psbt_in):
+    d = psbt_in.unknown or psbt_in.partial_sigs
+    d[b"k"] = b"v"
+def a7(psbt_in):
+    utxo = psbt_in.non_witness_utxo
+    utxo.lock_time = 1
+def a8(psbt_in):
+    a, b = psbt_in.unknown, psbt_in.sequence
+    a[b"k"] = b
+def a9(psbt_in, name):
+    d = getattr(psbt_in, name)
+    d.clear()
+def a10(psbt_in):
+    d = psbt_in.unknown
+    mystery(d)
+def a11(psbt_in):
+    for ps in psbt_in.musig2_participant_pub_keys.values():
+        ps.append(b"x")
+def a12(psbt_in):
+    d = psbt_in.unknown
+    d.frobnicate()
+def b1(psbt):
+    psbt.inputs[0].sequence = 0
+def b2(psbt):
+    x = psbt.inputs[1]
+    x.sequence = 0
+def b3(psbt_in):
+    del psbt_in.partial_sigs[b"k"]
+def b4(psbt):
+    q = deepcopy(psbt)
+    mystery(q)
+def b5(psbt):
+    y = mystery()
+    y.sequence = 1
+def r1(psbt_in):
+    s = psbt_in.redeem_script
+    n = len(psbt_in.unknown)
+    for k, v in psbt_in.partial_sigs.items():
+        pass
+    return sorted(psbt_in.unknown.items())
+"""
+
+_SELFTEST_EXPECT = {
+    "a1": {"unknown"}, "a2": {"unknown"}, "a3": {"partial_sigs", "hd_key_paths"}, "a4": {"unknown"},
+    "a5": {"unknown"}, "a6": {"unknown", "partial_sigs"}, "a7": {"non_witness_utxo"}, "a8": {"unknown"},
+    "a9": ValueError, "a10": ValueError, "a11": {"musig2_participant_pub_keys"}, "a12": ValueError,
+    "b1": {"sequence"}, "b2": {"sequence"}, "b3": {"partial_sigs"}, "b4": ValueError, "b5": ValueError,
+    "r1": set(),
+}
+
+
+def walker_selftest():
+    """the store walker on synthetic snippets: every write is FOLLOWED or REFUSED, never silently missed."""
+    import importlib.util
+    import os
+    import tempfile
+    d = tempfile.mkdtemp(prefix="c11walker")
+    path = os.path.join(d, "c11_walker_snippets.py")
+    with open(path, "w") as fh:
+        fh.write(_SELFTEST_SRC)
+    spec = importlib.util.spec_from_file_location("c11_walker_snippets", path)
+    mod = importlib.util.module_from_spec(spec)
+    spec.loader.exec_module(mod)
+    roots = {"psbt": "glob", "psbt_in": "in", "psbt_out": "out"}
+    bad = []
+    try:
+        for name, want in _SELFTEST_EXPECT.items():
+            try:
+                w = stores([getattr(mod, name)], roots)
+                got = w["in"] | w["glob"] | w["out"]
+            except ValueError:
+                got = ValueError
+            if got != want:
+                bad.append(f"{name}: expected {want}, got {got}")
+    finally:
+        os.remove(path)
+        os.rmdir(d)
+    if bad:
+        raise ValueError("store walker self-test failed: " + "; ".join(bad))
+
+
 def role_writes():
+    walker_selftest()
     roots = {"psbt": "glob", "self": "glob", "psbt_in": "in", "psbt_out": "out"}
     sg = stores([M.sign], roots)
     # finalize: _clear_finalized resets every dataclass field not in _FINALIZED_KEEPS
